@@ -1689,6 +1689,11 @@ class StmtMixin(object):
         if isinstance(target, ast.Attribute):
             base = self.eval(st, env, target.value)
             if isinstance(base, Ref) and st.heap[base.id].kind == "inst":
+                setter = getattr(st.heap[base.id].cls, "setters", {}).get(target.attr)
+                if setter is not None and target.attr not in st.heap[base.id].attrs:
+                    # a store to a property runs its setter
+                    self.inline(st, setter, None, [base, value], {}, target, module)
+                    return
                 st.heap[base.id].attrs[target.attr] = value
                 self.event("attr_write", target, module, st, attr=target.attr, value=value)
                 return
